@@ -99,6 +99,11 @@ _k("tuple1", [N], lambda a: (a,), ["struct"])
 _k("tuple3", [N, N, N], lambda a, b, c: (a, b, c), ["struct"])
 _k("neg", [N], lambda a: p.Product((-1, a)), [])
 
+_k("subst", [N, N], lambda c, val: p.Substitution(c, ("u",), (val,)), ["subst"])
+_k("deriv", [N], lambda c: p.Derivative(c, ("u",)), ["deriv"])
+_k("slice2", [N, N], lambda a, b: p.Slice((a, b)), ["slice"])
+_k("slice3", [N, N, N], lambda a, b, c: p.Slice((a, b, c)), ["slice"])
+
 ARITH = ["sum2", "sum3", "prod2", "prod3", "quot", "floordiv", "rem", "pow"]
 BITS = ["lshift", "rshift", "bnot", "bor2", "bxor2", "band2", "bor3", "bxor3", "band3"]
 LOGIC = ["lnot", "lor2", "land2", "lor3", "land3"]
